@@ -9,9 +9,11 @@ import (
 	"fmt"
 	"os"
 	"path/filepath"
+	"runtime"
 	"sort"
 	"strings"
 	"sync"
+	"sync/atomic"
 	"testing"
 	"time"
 
@@ -872,4 +874,127 @@ func TestRegress(t *testing.T) {
 		st.Case(filepath.Base(f), true, "regress")
 		st.Sample(filepath.Base(f), func() any { return map[string]any{"file": filepath.Base(f), "ops": ops} })
 	}
+}
+
+// TestConcurrentHammer: the same linearizability oracle as TestConcurrentCallers, aimed at narrow windows: 3..8 persistent
+// worker goroutines are released together by a spin barrier, a few hundred rounds per case, on a limiter whose next free
+// slot is far away or just reached, with requests whose max wait lets only some of them through. Every round's responses
+// must be explained by some serial order of the round's requests from the model state left by the previous rounds.
+func TestConcurrentHammer(t *testing.T) {
+	const test = "TestConcurrentHammer"
+	st := harness.NewStats(test)
+	defer st.Flush()
+	rapid.Check(t, func(t *rapid.T) {
+		kind := rapid.SampledFrom([]string{"smooth", "smooth", "bursty"}).Draw(t, "kind")
+		c := cfg{Kind: kind, Unit: rapid.SampledFrom([]int64{1000, int64(time.Millisecond), int64(time.Hour)}).Draw(t, "unit")}
+		if kind == "bursty" {
+			c.Max = rapid.IntRange(1, 3).Draw(t, "max")
+		}
+		l := newLimiter(c, nil)
+		m := newModel(c)
+		workers := rapid.IntRange(3, 8).Draw(t, "workers")
+		rounds := rapid.IntRange(50, 300).Draw(t, "rounds")
+		// the per-round recipe is drawn once per case and cycled: what each worker asks for and how far the clock moves
+		type recipe struct {
+			Adv string `json:"adv"` // 0 | slot | half
+			Ops []op   `json:"ops"`
+		}
+		var recipes []recipe
+		for i, n := 0, rapid.IntRange(1, 4).Draw(t, "recipes"); i < n; i++ {
+			r := recipe{Adv: rapid.SampledFrom([]string{"0", "slot", "slot", "half"}).Draw(t, "adv")}
+			for w := 0; w < workers; w++ {
+				o := op{N: 1, Op: rapid.SampledFrom([]string{"try", "tryreserve", "tryreserve"}).Draw(t, "op")}
+				if o.Op == "tryreserve" {
+					o.MW = c.Unit * int64(rapid.IntRange(0, 2).Draw(t, "mwUnits"))
+				} else {
+					o.One = rapid.Bool().Draw(t, "one")
+				}
+				r.Ops = append(r.Ops, o)
+			}
+			recipes = append(recipes, r)
+		}
+		var gen atomic.Int64 // round number the workers may run
+		var fin atomic.Int64 // workers finished in the current round
+		var stop atomic.Bool
+		cur := make([]op, workers)
+		var wg sync.WaitGroup
+		for w := 0; w < workers; w++ {
+			wg.Add(1)
+			go func(w int) {
+				defer wg.Done()
+				seen := int64(0)
+				for {
+					for gen.Load() == seen {
+						if stop.Load() {
+							return
+						}
+						runtime.Gosched()
+					}
+					seen = gen.Load()
+					cur[w].Got = l.call(&cur[w])
+					fin.Add(1)
+				}
+			}(w)
+		}
+		var now int64
+		contended := 0
+		var failure string
+		var hist []op
+		for r := 0; r < rounds && failure == ""; r++ {
+			rc := recipes[r%len(recipes)]
+			switch rc.Adv {
+			case "slot":
+				now += c.Unit
+			case "half":
+				now += c.Unit / 2
+			}
+			l.now = now
+			reqs := make([]creq, workers)
+			for w := range cur {
+				cur[w] = rc.Ops[w]
+				cur[w].T = now
+			}
+			fin.Store(0)
+			gen.Add(1)
+			deadline := harness.Wait(20 * time.Second)
+			for fin.Load() < int64(workers) {
+				if deadline.Expired() {
+					stop.Store(true)
+					harness.Inconclusive(t, "workers did not finish a round within 20s")
+				}
+				runtime.Gosched()
+			}
+			granted, refused := 0, 0
+			for w := range cur {
+				reqs[w].o = cur[w]
+				if cur[w].Got >= 0 {
+					granted++
+				} else {
+					refused++
+				}
+			}
+			if granted > 0 && refused > 0 {
+				contended++
+			}
+			hist = append(hist, cur...)
+			if len(hist) > 40 {
+				hist = hist[len(hist)-40:]
+			}
+			if !linearize(m, reqs, len(reqs)) {
+				failure = fmt.Sprintf("round %d at t=%d: no serial order of the %d concurrent requests explains the responses (model state before the round: %s)", r, now, workers, m)
+			}
+		}
+		stop.Store(true)
+		wg.Wait()
+		if failure != "" {
+			fail(t, test, "not-linearizable:"+kind, c, hist, "%s", failure)
+		}
+		b, _ := json.Marshal(map[string]any{"cfg": c, "workers": workers, "recipes": recipes})
+		st.Case(string(b), contended > 0, "kind="+kind, fmt.Sprintf("contended-rounds>=10=%v", contended >= 10))
+		if contended > 0 {
+			st.Sample(string(b), func() any {
+				return map[string]any{"cfg": c.String(), "workers": workers, "recipes": recipes, "rounds": rounds}
+			})
+		}
+	})
 }
